@@ -322,18 +322,36 @@ func makeReqsFor(inf map[string]caseInfo, metas map[string]reqMeta) func(scen.Ca
 		base := "/" + c.ID + "/op"
 		var out []rt.Request
 		n := 0
+		var mkEnc func(v value, absent bool, overEncode bool)
 		mk := func(v value, absent bool) {
+			mkEnc(v, absent, false)
+			// a second, non-canonical but valid client encoding of the same value: the first byte percent-encoded even
+			// if it need not be (servers must decode any valid percent-encoding)
+			if !absent && v.Raw != "" && (ci.Loc == "Path" || ci.Loc == "Query") && v.Class == "exact" {
+				mkEnc(v, absent, true)
+			}
+		}
+		mkEnc = func(v value, absent bool, overEncode bool) {
 			rq := rt.Request{ID: fmt.Sprintf("%s#%d", c.ID, n), Verb: "GET", URL: base}
 			n++
+			over := func(escaped string) string {
+				if !overEncode {
+					return escaped
+				}
+				if strings.HasPrefix(escaped, "%") {
+					return escaped
+				}
+				return fmt.Sprintf("%%%02X", v.Raw[0]) + escaped[1:]
+			}
 			switch ci.Loc {
 			case "Path":
 				if absent || v.Raw == "" {
 					return
 				}
-				rq.URL = base + "/" + url.PathEscape(v.Raw)
+				rq.URL = base + "/" + over(url.PathEscape(v.Raw))
 			case "Query":
 				if !absent {
-					rq.URL = base + "?" + url.QueryEscape(wire) + "=" + url.QueryEscape(v.Raw)
+					rq.URL = base + "?" + url.QueryEscape(wire) + "=" + over(url.QueryEscape(v.Raw))
 				}
 			case "Header":
 				if !absent {
